@@ -292,8 +292,8 @@ Theorem password_positions :
      forallb (fun kw => negb (is_Str (field "value" kw))) pre = true ->
      hardcoded_password_funcarg cfg c =
        if re_search re_candidates name then Ok (Some (pw_report lit)) else funcarg_scan post) /\
-  (* 5. parameter default:   def f(a, b, ..., name='lit')   (B107): last positional-or-keyword parameter
-        carrying the only default *)
+  (* 5. parameter default:   def f(p, ..., /, a, b, ..., name='lit')   (B107): last positional-or-keyword
+        parameter carrying the only default *)
   (forall cfg c p fname posonly pre p2 name ann p3 lit vararg kwonly kwdefs kwarg body decos,
      c_node c = mk_funcdef p fname
                   (mk_arguments posonly (pre ++ [mk_arg p2 name ann]) vararg kwonly kwdefs kwarg
@@ -333,7 +333,7 @@ Proof.
     destruct (is_candidate name); reflexivity.
   - intros cfg c p fname posonly pre p2 name ann p3 lit vararg kwonly kwdefs kwarg body decos Hn.
     unfold hardcoded_password_default. rewrite Hn. unf. cbn. unfold pad_defaults.
-    rewrite app_length. cbn. rewrite Nat.add_sub.
+    rewrite app_assoc, app_length. cbn. rewrite Nat.add_sub.
     rewrite default_scan_skip_none. cbn.
     change (re_search re_candidates name) with (is_candidate name).
     destruct (is_candidate name); reflexivity.
@@ -362,18 +362,140 @@ Example password_positions_ex :
                              NNone [lit]) [] []) []) = rep.
 Proof. vm_compute. repeat split. Qed.
 
-(* The documented B107 rule ("a default string literal for some argument ... that looks like a password",
-   "we do not report on None values") is false of the code when positional-only parameters have
-   defaults: args.defaults is aligned against args.args only, so
-       def f(a='zzz', /, password=None): pass
-   reports 'zzz' as the hardcoded default of [password], whose default is None. *)
-Theorem password_default_posonly_refuted :
-  exists c : ctx,
-    c_node c = mk_funcdef None (s2p "f")
-                 (mk_arguments [mk_arg None (s2p "a") NNone] [mk_arg None (s2p "password") NNone] NNone [] []
-                               NNone [mk_str None (s2p "zzz"); mk_const None CNone]) [] [] /\
-    hardcoded_password_default JNull c = Ok (Some (pw_report (s2p "zzz"))).
-Proof. eexists (ctx_at _ []). split; [reflexivity|]. vm_compute. reflexivity. Qed.
+(* B107 alignment (after the repair pairing args.defaults with args.posonlyargs + args.args) *)
+
+Lemma combine_app_eq {A B} (l1 l2 : list A) (r1 r2 : list B) :
+  List.length l1 = List.length r1 -> combine (l1 ++ l2) (r1 ++ r2) = combine l1 r1 ++ combine l2 r2.
+Proof.
+  revert r1; induction l1 as [|x l1 IH]; intros [|y r1]; simpl; try discriminate; intro H; [reflexivity|].
+  f_equal. apply IH. congruence.
+Qed.
+
+Lemma combine_rev {A B} (l : list A) (r : list B) :
+  List.length l = List.length r -> rev (combine l r) = combine (rev l) (rev r).
+Proof.
+  revert r; induction l as [|x l IH]; intros [|y r]; simpl; try discriminate; intro H; [reflexivity|].
+  injection H as H. rewrite (IH r H). rewrite combine_app_eq by (rewrite !rev_length; exact H). reflexivity.
+Qed.
+
+Lemma rev_repeat_same {A} (x : A) n : rev (repeat x n) = repeat x n.
+Proof.
+  induction n as [|n IH]; simpl; [reflexivity|]. rewrite IH. clear IH.
+  induction n as [|n IH]; simpl; [reflexivity|]. rewrite IH. reflexivity.
+Qed.
+
+Lemma In_skipn {A} (x : A) k l : In x (skipn k l) -> In x l.
+Proof.
+  revert l; induction k as [|k IH]; intros [|y l]; simpl; auto.
+Qed.
+
+(* a well-formed parameter: an ast.arg carrying its name *)
+Definition wf_arg (k : node) : Prop := is_cls "arg" k = true /\ exists a, field_opt "arg" k = Some (NId a).
+
+Lemma wf_mk_arg p name ann : wf_arg (mk_arg p name ann).
+Proof. split; [reflexivity | exists name; reflexivity]. Qed.
+
+(* (parameter, its default) is a hit: the default is a string literal and the name looks like a password *)
+Definition param_hit (kv : node * node) : option pstr :=
+  match str_of (snd kv) with
+  | Some s => match field "arg" (fst kv) with
+              | NId a => if is_candidate a then Some s else None
+              | _ => None
+              end
+  | None => None
+  end.
+
+Fixpoint first_hit (l : list (node * node)) : option pstr :=
+  match l with
+  | [] => None
+  | kv :: t => match param_hit kv with Some s => Some s | None => first_hit t end
+  end.
+
+Lemma first_hit_spec l s :
+  first_hit l = Some s <->
+  exists l1 kv l2, l = l1 ++ kv :: l2 /\ param_hit kv = Some s /\ forall x, In x l1 -> param_hit x = None.
+Proof.
+  induction l as [|kv l IH]; simpl.
+  - split; [discriminate|]. intros [l1 [kv [l2 [H _]]]]. destruct l1; discriminate.
+  - destruct (param_hit kv) as [s'|] eqn:E.
+    + split.
+      * intro H; inversion H; subst. exists [], kv, l. repeat split; auto. intros x [].
+      * intros [l1 [kv' [l2 [H [Hh Hb]]]]]. destruct l1 as [|y l1]; simpl in H; inversion H; subst.
+        -- congruence.
+        -- rewrite (Hb y (or_introl eq_refl)) in E. discriminate.
+    + rewrite IH. split.
+      * intros [l1 [kv' [l2 [-> [Hh Hb]]]]]. exists (kv :: l1), kv', l2. repeat split; auto.
+        intros x [<-|Hx]; auto.
+      * intros [l1 [kv' [l2 [H [Hh Hb]]]]]. destruct l1 as [|y l1]; simpl in H; inversion H; subst.
+        -- congruence.
+        -- exists l1, kv', l2. repeat split; auto. intros x Hx. apply Hb. right. exact Hx.
+Qed.
+
+Lemma default_scan_first_hit ks ds :
+  Forall wf_arg ks ->
+  default_scan (combine ks (map Some ds)) =
+    match first_hit (combine ks ds) with Some s => Ok (Some (pw_report s)) | None => Ok None end.
+Proof.
+  intro Hwf. revert ds. induction Hwf as [|k ks [Hcls [a Ha]] Hwf IH]; intros [|v ds]; simpl; try reflexivity.
+  rewrite Hcls, orb_true_r. unfold param_hit. simpl. unfold field. rewrite Ha.
+  unfold is_none_constant, str_of. destruct (const_of v) as [[]|]; simpl; try apply IH.
+  destruct (is_candidate a); [reflexivity | apply IH].
+Qed.
+
+(* For a FunctionDef with positional-only parameters ps, regular parameters as_ and defaults ds
+   (len ds <= len ps + len as_, as in every parsed program): the check scans ps ++ as_ in source order,
+   the i-th parameter from the end paired with the i-th default from the end and the leading parameters
+   with "no default"; hence what it reports is the default of the first parameter, in source order, whose
+   default is a string literal and whose name matches RE_CANDIDATES. *)
+Theorem password_default_alignment :
+  forall cfg c p fname ps as_ vararg kwonly kwdefs kwarg ds body decos,
+  c_node c = mk_funcdef p fname (mk_arguments ps as_ vararg kwonly kwdefs kwarg ds) body decos ->
+  List.length ds <= List.length ps + List.length as_ ->
+  let params := ps ++ as_ in
+  let k := List.length params - List.length ds in
+  hardcoded_password_default cfg c = default_scan (combine params (pad_defaults params ds)) /\
+  rev (combine params (pad_defaults params ds)) = combine (rev params) (map Some (rev ds) ++ repeat None k) /\
+  hardcoded_password_default cfg c = default_scan (combine (skipn k params) (map Some ds)) /\
+  (Forall wf_arg params ->
+   hardcoded_password_default cfg c =
+     match first_hit (combine (skipn k params) ds) with
+     | Some s => Ok (Some (pw_report s))
+     | None => Ok None
+     end).
+Proof.
+  intros cfg c p fname ps as_ vararg kwonly kwdefs kwarg ds body decos Hn Hlen params k.
+  assert (Hlen' : List.length ds <= List.length params) by (unfold params; rewrite app_length; exact Hlen).
+  assert (H1 : hardcoded_password_default cfg c = default_scan (combine params (pad_defaults params ds))).
+  { unfold hardcoded_password_default. rewrite Hn. reflexivity. }
+  assert (H3 : default_scan (combine params (pad_defaults params ds)) =
+               default_scan (combine (skipn k params) (map Some ds))).
+  { unfold pad_defaults. fold k.
+    assert (Hk : List.length (firstn k params) = k) by (apply firstn_length_le; unfold k; lia).
+    pose proof (default_scan_skip_none (firstn k params) (skipn k params) (map Some ds)) as Hs.
+    rewrite Hk, firstn_skipn in Hs. exact Hs. }
+  split; [exact H1|]. split; [|split].
+  - unfold pad_defaults. fold k. rewrite combine_rev.
+    + rewrite rev_app_distr, rev_repeat_same, map_rev. reflexivity.
+    + rewrite app_length, repeat_length, map_length. unfold k. lia.
+  - rewrite H1. exact H3.
+  - intro Hwf. rewrite H1, H3. apply default_scan_first_hit.
+    apply Forall_forall. intros x Hx. rewrite Forall_forall in Hwf. apply Hwf. exact (In_skipn _ _ _ Hx).
+Qed.
+
+(* def f(a='zzz', /, password='hunter2'): pass *)
+Example password_default_alignment_ex :
+  hardcoded_password_default JNull
+    (ctx_at (mk_funcdef None (s2p "f")
+               (mk_arguments [mk_arg None (s2p "a") NNone] [mk_arg None (s2p "password") NNone] NNone [] [] NNone
+                             [mk_str None (s2p "zzz"); mk_str None (s2p "hunter2")]) [] []) [])
+  = Ok (Some (pw_report (s2p "hunter2"))) /\
+  (* def f(a='zzz', /, password=None): pass  -- nothing to report any more *)
+  hardcoded_password_default JNull
+    (ctx_at (mk_funcdef None (s2p "f")
+               (mk_arguments [mk_arg None (s2p "a") NNone] [mk_arg None (s2p "password") NNone] NNone [] [] NNone
+                             [mk_str None (s2p "zzz"); mk_const None CNone]) [] []) [])
+  = Ok None.
+Proof. vm_compute. split; reflexivity. Qed.
 
 (* ------------------------------------------------------------------------------------------ *)
 (* docstrings / bare expression strings never reach a Str check                                *)
